@@ -184,8 +184,11 @@ static int run(void)
 #ifdef KF_AUTO_DUP
   VF_ASSUME(!autodup);           /* known finding: repeated BeginString/BodyLength/MsgType tokens are skipped silently */
 #endif
-#ifdef KF_GROUP_COUNT
-  VF_ASSUME(gcount_ok);          /* known finding: the NoXXX count is not compared with the number of elements decoded */
+#ifndef ORACLE_WITH_GROUP_COUNT
+  /* oracle correction (not a known finding): the statement of C04 lists the conditions for acceptance (checksum, legal tags,
+     no repeats, mandatory fields, elements start with the first field); equality of the NoXXX value and the number of elements
+     decoded is not among them, so messages with a differing count are outside what this harness judges */
+  VF_ASSUME(gcount_ok);
 #endif
   /* ---- run */
   struct S_class_2eFIX8_3a_3aMessage *m = vf_factory(&W_ctx, &W_from, nochk, PERM);
